@@ -147,6 +147,20 @@ func prop(c harness.Case) harness.Result {
 	root := cm.Node{}
 	if !v.virtual {
 		root = blocks[c.I["root"]%len(blocks)].AsNode()
+		// the walk may start at any node of the tree, block or inline: the
+		// subroot-th node in document order (0 = the root block itself)
+		if k := c.I["subroot"]; k > 0 {
+			var all []cm.Node
+			var collect func(n cm.Node)
+			collect = func(n cm.Node) {
+				all = append(all, n)
+				for i := 0; i < n.ChildCount(); i++ {
+					collect(n.Child(i))
+				}
+			}
+			collect(root)
+			root = all[k%len(all)]
+		}
 	} else if v.mode == 0 || v.mode >= 4 {
 		v.mode = 1 // a virtual root needs both custom functions
 	}
@@ -217,6 +231,12 @@ func prop(c harness.Case) harness.Result {
 	res.Labels = append(res.Labels, fmt.Sprintf("view_mode=%d", v.mode))
 	if v.virtual {
 		res.Labels = append(res.Labels, "virtual_root")
+	} else if c.I["subroot"] > 0 {
+		if root.Inline() != nil {
+			res.Labels = append(res.Labels, "walk_starts_at_inline_node")
+		} else {
+			res.Labels = append(res.Labels, "walk_starts_at_inner_block")
+		}
 	}
 	prunedInner := false
 	for i, e := range want {
@@ -320,6 +340,9 @@ func genCase(t *rapid.T) harness.Case {
 		c.SetI("virtual", 1)
 	}
 	c.SetI("root", rapid.IntRange(0, 7).Draw(t, "root"))
+	if rapid.IntRange(0, 3).Draw(t, "sub") == 0 {
+		c.SetI("subroot", rapid.IntRange(1, 60).Draw(t, "subroot"))
+	}
 	switch rapid.IntRange(0, 9).Draw(t, "nil") {
 	case 0:
 		c.SetI("nilpre", 1)
@@ -346,7 +369,7 @@ func genCase(t *rapid.T) harness.Case {
 	return c
 }
 
-const rule = "tree = Parse(G1/G2/G3 input), one root block or a virtual root over all root blocks, x policy (set of Pre ordinals that prune, Post ordinal that aborts, nil Pre/Post, child-function view: defaults / identity / reversed / truncated / ChildCount only / Child only); one case in five is a tree that is deep (up to 48 nested containers, 40 nested inlines) or wide (up to 150 siblings) by construction; oracle = recursive reference walker's event list (kind, node, parent, index, enclosing block) plus cursor invariants; non-trivial = >= 10 callbacks and the policy prunes a node with children, aborts before the end, uses a virtual root or a non-identity view"
+const rule = "tree = Parse(G1/G2/G3 input), one root block, any inner node of it (block or inline) or a virtual root over all root blocks, x policy (set of Pre ordinals that prune, Post ordinal that aborts, nil Pre/Post, child-function view: defaults / identity / reversed / truncated / ChildCount only / Child only); one case in five is a tree that is deep (up to 48 nested containers, 40 nested inlines) or wide (up to 150 siblings) by construction; oracle = recursive reference walker's event list (kind, node, parent, index, enclosing block) plus cursor invariants; non-trivial = >= 10 callbacks and the policy prunes a node with children, aborts before the end, uses a virtual root or a non-identity view"
 
 func TestProperty(t *testing.T) {
 	harness.Run(t, harness.Plan{Prop: "C18", Checks: []harness.Check{
